@@ -1,5 +1,6 @@
 import Goyang.Model.Proto
 import Goyang.Spec.Deviate
+import Goyang.Spec.DevTarget
 /-
 Driver for the executable C08 specification (RFC 7950 §7.20.3 transcription, Goyang.Spec.Deviate).
 
@@ -14,6 +15,19 @@ Driver for the executable C08 specification (RFC 7950 §7.20.3 transcription, Go
   -> <state> ; <violations> ; <unsupported 0/1>
      state := removed | cfg=… mand=… def=[…] la=<min>:<max> units=… type=…
      violations := - | name:claimed(0/1),…    (every broken §7.20.3.2 condition, in order)
+
+Target resolution (Goyang.Spec.DevTarget: RFC 7950 §6.5 schema node identifiers on the schema tree the
+dump of the run WITHOUT the deviating modules shows):
+
+  spec.target <root hex> <n> <step hex>*n <node>*
+     root : the module (tree) the first prefix of the deviation argument denotes
+     step : the node identifiers of the argument, prefixes removed
+     node : hex of the dump path of one node of that tree ("/root/a/b"), followed by `!` for an rpc / action
+  -> names | missing <i>       (i = first step that names no child of the node reached so far)
+
+  spec.missing <reported 0/1> <changed>
+     what the property demands of a run that holds a deviation naming no node
+  -> holds | violates:not-reported | violates:not-reported+changed | violates:changed
 -/
 open Goyang Goyang.Proto Goyang.Spec.Deviate
 
@@ -87,7 +101,32 @@ def encState : Option NodeProps → String
     s!"cfg={encTri p.config} mand={encTri p.mandatory} def={encDefs p.default} la={p.min}:{p.max.getD maxU64} " ++
     s!"units={encOptStr p.units} type={encOptStr p.type}"
 
+def decSNode (s : String) : Option Goyang.Spec.DevTarget.SNode := do
+  let rpc := s.endsWith "!"
+  let h : String := if rpc then String.ofList s.toList.dropLast else s
+  let p ← decStrField h
+  some { path := (p.splitOn "/").filter (· ≠ ""), rpc := rpc }
+
+def handleTarget : List String → String
+  | root :: n :: rest =>
+    match decStrField root, decNat n with
+    | some root, some n =>
+      match (rest.take n).mapM decStrField, (rest.drop n).mapM decSNode with
+      | some steps, some tree =>
+        if steps.length != n then "bad-op" else
+        match Goyang.Spec.DevTarget.resolve tree root steps with
+        | none => "names"
+        | some i => s!"missing {i}"
+      | _, _ => "bad-op"
+    | _, _ => "bad-op"
+  | _ => "bad-op"
+
 def handle : List String → String
+  | "spec.target" :: rest => handleTarget rest
+  | ["spec.missing", rep, ch] =>
+    match decBool rep, decNat ch with
+    | some rep, some ch => Goyang.Spec.DevTarget.missingVerdict rep ch
+    | _, _ => "bad-op"
   | "spec.deviate" :: ins :: rest =>
     match decBool ins, decNode rest with
     | some ins, some (p, rest) =>
